@@ -288,3 +288,25 @@ def shrink_bytes(data, fails, budget=40):
         if not progressed:
             chunk //= 2
     return cur
+
+
+def translate_and_prove(ctx, groups=("Codec",)):
+    """T1 + proof obligations.  coq/Gen is shared by all checks and by `make gen`: if somebody else regenerated
+    the group (from another source tree) while the theorems were being checked, the step is repeated, so that
+    the obligations are always checked against the translation of THIS run's source tree."""
+    import genall
+    for attempt in range(3):
+        st = genall.run(list(groups))
+        nb, ob, di = len(ctx.broken), ctx.cov["obligations"], ctx.cov["discharged"]
+        for g, s_ in st.items():
+            ctx.log("c2g", g, s_)
+            if s_.startswith("FAILED"):
+                ctx.tie_broken("translator group " + g, s_)
+        r = ctx.props()
+        st2 = genall.run(list(groups))
+        if not any("(changed)" in v for v in st2.values()):
+            return r
+        ctx.log("coq/Gen was regenerated by another process during the proof step: repeating")
+        del ctx.broken[nb:]
+        ctx.cov["obligations"], ctx.cov["discharged"] = ob, di
+    return r
